@@ -154,12 +154,10 @@ Fixpoint set_nth_val (i : nat) (v : Z) (l : list mrec) : list mrec :=
   | r :: l', Datatypes.S i' => r :: set_nth_val i' v l'
   end.
 
-(* Go map assignment m[key] = v *)
-Fixpoint map_set (key : pkey) (v : Z) (m : list (pkey * Z)) : list (pkey * Z) :=
-  match m with
-  | [] => [(key, v)]
-  | (k', v') :: m' => if pkey_eqb key k' then (key, v) :: m' else (k', v') :: map_set key v m'
-  end.
+(* statement.go setMapColumn: every key of the payload map here is a spelling ("Val" / "val") of the one
+   modelled column; SetColumn deletes both spellings, then stores the value under the name it was given *)
+Definition map_set (key : pkey) (v : Z) (m : list (pkey * Z)) : list (pkey * Z) :=
+  (key, v) :: filter (fun _ => false) m.
 
 (* statement.go SetColumn(name, value) called from a hook while record [i] is current *)
 Definition set_column (c : cx) (i : nat) (v : Z) (s : S) : S :=
